@@ -322,7 +322,7 @@ def op_to_coq(op):
 
 def ops_case_to_coq(case, obs):
     steps = []
-    for s in obs['steps']:
+    for s in obs.get('steps', []):
         if 'ext' in s:
             steps.append('(Ok (%s, %s))' % (ext_to_coq(s['ext']), cbool(bool(s['valid']))))
         else:
